@@ -42,8 +42,19 @@ def rewire_same_size(rnd, c):
     src = rnd.choice(srcs)
     if src is l.driver:
         return None
+    c._edit = [int(l.index), int(src.index)]
     l.remove()
     Line(c, src, (rdr, pin))
+    return c
+
+
+def redo_edit(c, edit):
+    """Replay of a rewiring: line edit[0] is removed and its reader pin connected to node edit[1] (same object, same counts)."""
+    from kyupy.circuit import Line
+    l = c.lines[edit[0]]
+    rdr, pin = l.reader, l.reader_pin
+    l.remove()
+    Line(c, c.nodes[edit[1]], (rdr, pin))
     return c
 
 
@@ -71,6 +82,7 @@ def rewire_against_order(rnd, c):
         if late:
             f = rnd.choice(late)
             pin = l.reader_pin
+            c._edit = [int(l.index), int(f.index)]
             l.remove()
             Line(c, f, (a, pin))
             return c
@@ -222,12 +234,19 @@ def main(tier=None, replay=None):
     import_kyupy()
     rnd = random.Random(ck.seed + 17)
     recs, inputs = [], []
+    hist = {}        # record number -> how the object got into its state (traversed before, then rewired)
     if replay:
         import json
         ck.is_replay = True
         case = json.load(open(replay))['case']
         if case['kind'] == 'traverse':
-            c = gen.circuit_from_state(case['circuit'])
+            if case.get('history'):
+                # the object was traversed once, then rewired (same numbers of nodes and lines), then traversed again
+                c = gen.circuit_from_state(case['history']['before'])
+                traversal_record(rnd, c)
+                c = redo_edit(c, case['history']['edit'])
+            else:
+                c = gen.circuit_from_state(case['circuit'])
             recs, inputs = [traversal_record(rnd, c, nfan=40)], [case['circuit']]
             r = ck.tlc_batch('Traverse', 'Traverse', traces=recs, label='T:Traverse')
             ck.require_clean(r)
@@ -270,6 +289,7 @@ def main(tier=None, replay=None):
             c2 = rewire_against_order(rnd, c) if rnd.random() < 0.6 else rewire_same_size(rnd, c)
             if c2 is not None:
                 ck.count('rewired-same-size')
+                hist[len(recs)] = dict(before=inputs[-1], edit=c2._edit)
                 inputs.append(gen.circuit_state(c2))
                 recs.append(traversal_record(rnd, c2))
     # scale: a fork with more than 256 branches (visit counters and positions beyond 8 bits)
@@ -284,7 +304,7 @@ def main(tier=None, replay=None):
     ck.evaluations += r.distinct
     for pid, tid, l, clause in r.fails:
         ck.violation('%s:%s' % (clause, gen.digest(inputs[tid - 1])), '%s fails at position %d of the sequence yielded for circuit %s %s' % (
-            clause, l, gen.digest(inputs[tid - 1]), recs[tid - 1].get('err', '')), dict(kind='traverse', circuit=inputs[tid - 1], clause=clause, position=l))
+            clause, l, gen.digest(inputs[tid - 1]), recs[tid - 1].get('err', '')), dict(kind='traverse', circuit=inputs[tid - 1], clause=clause, position=l, history=hist.get(tid - 1)))
     lrecs = locs_records(rnd, ck.pick(250, 2500))
     r2 = ck.tlc_batch('Locs', 'Locs', traces=lrecs, label='T:Locs', per_shard=150)
     ck.require_clean(r2)
